@@ -493,15 +493,17 @@ def case_key(case):
 
 
 def run_go_retry(ctx, lines):
-    """an op that timed out or died under load is run again alone with a generous watchdog"""
+    """an op that timed out or died under load is run again alone with a generous watchdog; what times out again stands (after
+    five of those in a row the rest keep their first answer: the code hangs, it is not the load)"""
     go = ctx.run_go(lines)
-    bad = [i for i, a in enumerate(go) if a.startswith('timeout') or a.startswith('crash') or a == 'notrun']
-    if len(bad) > 8:
-        return go               # not load flakiness: the answers stand (and differ from model and spec)
+    again = 0
     for i, a in enumerate(go):
         if a.startswith('timeout') or a.startswith('crash') or a == 'notrun':
+            if again >= 5:
+                break
             ctx.count('go_rerun_after_timeout_or_crash')
-            go[i] = ctx.run_go([lines[i]], timeout_ms=10000, parallel=False)[0]
+            go[i] = ctx.run_go([lines[i]], timeout_ms=20000, parallel=False)[0]
+            again = again + 1 if (go[i].startswith('timeout') or go[i].startswith('crash')) else 0
     return go
 
 
